@@ -14,6 +14,7 @@ CONSTANTS
   PkgReplace = FALSE
   MaxFault = 1
   MaxCrash = 1
+  Planned = FALSE
   GenDepth = 0
 VIEW view
 INVARIANT TypeOK
